@@ -529,6 +529,9 @@ def run(ctx):
         "read timeout: ReadTimeout=10 s, the controller lets 11 s of fake time pass (step `timeout`, body end `stall`); every request waiting at that moment times out together",
         "staged-variant theorems: H has no collision between byte strings of different lengths",
         "the fake transport returns context.Cause(ctx) for a cancelled request, like net/http's transport",
+        "chunksums parser model: ASCII response bodies (bufio.ScanWords' multi-byte Unicode spaces are outside), tokens below bufio's 64 KiB limit",
+        "push faults: transport failure on every request kind of all push drivers; cancellation of the caller's context only for the new client (the legacy code's no-retry-on-Canceled path is not driven)",
+        "history_linked_layers_verified_tree: sizes are a function of the digest across the history (excludes exactly finding F10d's input class)",
     ]
     return ctx.finish(
         level="proof",
@@ -536,7 +539,7 @@ def run(ctx):
              "sides of ChunkingThreshold in {2,3,4,6,9}, MaxStreams in {1,2,3,-1}; served chunk plans: exact partition / "
              "repeated / moved / dropped / lying digest / permuted / broken tail / failing; per-request faults: 5xx, 4xx, "
              "transport, short, reset, corrupt byte, extra bytes; cancellation; read timeout (fake time); scripted completion order; history modes: range past the layer end then honest retries (1/6), size lie after a linked honest pull (1/8)) + push cases "
-             "for both push implementations with per-request faults; distinct = distinct oracle command lines",
+             "for both push implementations with per-request faults (status alphabet with/without Location, no answer, redirect chains up to net/http's limit; new client: manifests with a config blob, context cancelled at the k-th request) + chunksums response bodies (ASCII; separators, sign/zero/int64 forms, mutated digests and ranges, cut tails); every branch tag of the pull and push models must be reached; distinct = distinct oracle command lines",
         explanation="Lean theorems about the model of Pull/Push; the model is tied to the real client by exact comparison of "
                     "per-attempt result class, waiting-request counts, link target and layer file bytes (L1), and the "
                     "property is evaluated directly on the real cache (SHA-256 of every layer of every linked name after "
